@@ -480,47 +480,49 @@ class SimplicialComplex(Hypergraph):
         # format 5 is the easiest one
         if isinstance(ebunch_to_add, dict):
             faces = []  # container to store subfaces
-            for idx, members in ebunch_to_add.items():
-                if None in members:
-                    raise XGIError("None cannot be a node or edge")
+            try:
+                for idx, members in ebunch_to_add.items():
+                    if None in members:
+                        raise XGIError("None cannot be a node or edge")
 
-                # check that it does not exist yet (based on members, not ID)
-                if not members or self.has_simplex(members):
-                    continue
-
-                if idx in self._edge.keys():  # check that uid is not present yet
-                    warn(f"uid {idx} already exists, cannot add simplex {members}.")
-                    continue
-
-                if max_order is not None:
-                    if len(members) > max_order + 1:
-                        combos = powerset(
-                            members, include_singletons=False, max_size=max_order + 1
-                        )
-                        faces += list(combos)
-
+                    # check that it does not exist yet (based on members, not ID)
+                    if not members or self.has_simplex(members):
                         continue
 
-                try:
-                    _ = frozenset(members)
-                except TypeError as e:
-                    raise XGIError("Invalid ebunch format") from e
+                    if idx in self._edge.keys():  # check that uid is not present yet
+                        warn(f"uid {idx} already exists, cannot add simplex {members}.")
+                        continue
 
-                self._add_simplex(frozenset(members), idx)
+                    if max_order is not None:
+                        if len(members) > max_order + 1:
+                            combos = powerset(
+                                members, include_singletons=False, max_size=max_order + 1
+                            )
+                            faces += list(combos)
 
-                update_uid_counter(self, idx)
+                            continue
 
-                # store subfaces
-                faces += self._subfaces(members)
+                    try:
+                        _ = frozenset(members)
+                    except TypeError as e:
+                        raise XGIError("Invalid ebunch format") from e
 
-            # add subfaces
-            faces = set(faces)  # get unique subfaces
-            for members in faces:
-                # check that it does not exist yet (based on members, not ID)
-                if not members or self.has_simplex(members):
-                    continue
+                    self._add_simplex(frozenset(members), idx)
 
-                self._add_face(members)
+                    update_uid_counter(self, idx)
+
+                    # store subfaces
+                    faces += self._subfaces(members)
+            finally:
+                # add subfaces, also when an item is rejected part-way, so that the
+                # simplices added so far are downward closed
+                faces = set(faces)  # get unique subfaces
+                for members in faces:
+                    # check that it does not exist yet (based on members, not ID)
+                    if not members or self.has_simplex(members):
+                        continue
+
+                    self._add_face(members)
 
             return
 
@@ -556,47 +558,58 @@ class SimplicialComplex(Hypergraph):
 
         faces = []
         # now we may iterate over the rest
-        e = first_edge
-        while True:
-            if format1:
-                members, idx, eattr = e, None, {}  # uid now set below
-            elif format2:
-                members, idx, eattr = e[0], e[1], {}
-            elif format3:
-                members, idx, eattr = e[0], None, e[1]  # uid now set below
-            elif format4:
-                members, idx, eattr = e[0], e[1], e[2]
+        try:
+            e = first_edge
+            while True:
+                if format1:
+                    members, idx, eattr = e, None, {}  # uid now set below
+                elif format2:
+                    members, idx, eattr = e[0], e[1], {}
+                elif format3:
+                    members, idx, eattr = e[0], None, e[1]  # uid now set below
+                elif format4:
+                    members, idx, eattr = e[0], e[1], e[2]
 
-            # check if members is iterable before checking it exists
-            # to raise meaningful error if not iterable
-            try:
-                _ = iter(members)
-            except TypeError as e:
-                raise XGIError("Invalid ebunch format") from e
-
-            if None in members:
-                raise XGIError("None cannot be a node or edge")
-
-            # check that it does not exist yet (based on members, not ID)
-            if not members or self.has_simplex(members):
+                # check if members is iterable before checking it exists
+                # to raise meaningful error if not iterable
                 try:
-                    e = next(new_edges)
-                except StopIteration:
-                    break
+                    _ = iter(members)
+                except TypeError as e:
+                    raise XGIError("Invalid ebunch format") from e
 
-                continue
+                if None in members:
+                    raise XGIError("None cannot be a node or edge")
 
-            # needs to go after the check for existence, otherwise
-            # we're skipping ID numbers when edges already exist
-            if format1 or format3:
-                idx = next(self._edge_uid)
+                # check that it does not exist yet (based on members, not ID)
+                if not members or self.has_simplex(members):
+                    try:
+                        e = next(new_edges)
+                    except StopIteration:
+                        break
 
-            if max_order is not None:
-                if len(members) > max_order + 1:
-                    combos = powerset(
-                            members, include_singletons=False, max_size=max_order + 1
-                        )
-                    faces += list(combos)  # store faces
+                    continue
+
+                # needs to go after the check for existence, otherwise
+                # we're skipping ID numbers when edges already exist
+                if format1 or format3:
+                    idx = next(self._edge_uid)
+
+                if max_order is not None:
+                    if len(members) > max_order + 1:
+                        combos = powerset(
+                                members, include_singletons=False, max_size=max_order + 1
+                            )
+                        faces += list(combos)  # store faces
+
+                        try:
+                            e = next(new_edges)
+                        except StopIteration:
+                            break
+
+                        continue
+
+                if idx in self._edge.keys():  # check that uid is not present yet
+                    warn(f"uid {idx} already exists, cannot add simplex {members}.")
 
                     try:
                         e = next(new_edges)
@@ -605,49 +618,40 @@ class SimplicialComplex(Hypergraph):
 
                     continue
 
-            if idx in self._edge.keys():  # check that uid is not present yet
-                warn(f"uid {idx} already exists, cannot add simplex {members}.")
+                try:
+                    self._edge[idx] = frozenset(members)
+                except TypeError as e:
+                    raise XGIError("Invalid ebunch format") from e
+
+                for n in members:
+                    if n not in self._node:
+                        self._node[n] = set()
+                        self._node_attr[n] = self._node_attr_dict_factory()
+                    self._node[n].add(idx)
+
+                self._edge_attr[idx] = self._edge_attr_dict_factory()
+                self._edge_attr[idx].update(attr)
+                self._edge_attr[idx].update(eattr)
+
+                update_uid_counter(self, idx)
+
+                # store subfaces
+                faces += self._subfaces(members)
 
                 try:
                     e = next(new_edges)
                 except StopIteration:
                     break
+        finally:
+            # add subfaces, also when an item is rejected part-way, so that the
+            # simplices added so far are downward closed
+            faces = set(faces)  # get unique faces
+            for members in faces:
+                # check that it does not exist yet (based on members, not ID)
+                if not members or self.has_simplex(members):
+                    continue
 
-                continue
-
-            try:
-                self._edge[idx] = frozenset(members)
-            except TypeError as e:
-                raise XGIError("Invalid ebunch format") from e
-
-            for n in members:
-                if n not in self._node:
-                    self._node[n] = set()
-                    self._node_attr[n] = self._node_attr_dict_factory()
-                self._node[n].add(idx)
-
-            self._edge_attr[idx] = self._edge_attr_dict_factory()
-            self._edge_attr[idx].update(attr)
-            self._edge_attr[idx].update(eattr)
-
-            update_uid_counter(self, idx)
-
-            # store subfaces
-            faces += self._subfaces(members)
-
-            try:
-                e = next(new_edges)
-            except StopIteration:
-                break
-
-        # add subfaces
-        faces = set(faces)  # get unique faces
-        for members in faces:
-            # check that it does not exist yet (based on members, not ID)
-            if not members or self.has_simplex(members):
-                continue
-
-            self._add_face(members)
+                self._add_face(members)
 
     def close(self):
         """Adds all missing subfaces to the complex.
